@@ -80,8 +80,14 @@ theorem enterOne_addActive (h : Hooks) (fl : Flavor) (m : Machine) (ev : Option 
   simp only [addActive_err, he, hd, Bool.false_eq_true, if_false, addActive_idem]
 
 -- the invariant --------------------------------------------------------------------------------------------
+/-- what identifies "the timer of a delay key in one activation of its state": owner, activation index of
+    the owner at arming time, index of the delay key among the owner's arming ones -/
+def tkey (t : Timer) : Path × Nat × Nat := (t.owner, t.act, t.slot)
+
 /-- every armed timer / live service task belongs to the current activation of an active owner; task
-    identities (`seq`) are unique, below the allocation counter, and a delivered timer is gone for good -/
+    identities (`seq`) are unique, below the allocation counter, and a delivered timer is gone for good;
+    a delivered timer belongs to an activation that has begun, and no (owner, activation, delay key) has
+    two timers, armed or delivered -/
 structure Good (rt : RT) : Prop where
   cur : ∀ t ∈ rt.timers, t.owner ∈ rt.st.cfg ∧ t.act = actOf rt.acts t.owner
   curI : ∀ i ∈ rt.invs, i.owner ∈ rt.st.cfg ∧ i.act = actOf rt.acts i.owner
@@ -93,6 +99,9 @@ structure Good (rt : RT) : Prop where
   ndF : (rt.fired.map (·.seq)).Nodup
   ndI : (rt.invs.map (·.seq)).Nodup
   disj : ∀ t ∈ rt.timers, ∀ f ∈ rt.fired, t.seq ≠ f.seq
+  actF : ∀ f ∈ rt.fired, f.act ≤ actOf rt.acts f.owner
+  /-- armed or delivered, two timers of the same (owner, activation, delay key) are the same task -/
+  uniq : ∀ x y : Timer, (x ∈ rt.timers ∨ x ∈ rt.fired) → (y ∈ rt.timers ∨ y ∈ rt.fired) → tkey x = tkey y → x.seq = y.seq
 
 /-- the invariant is claimed for runs without rollback and without entry of an already active state
     (ghost flag `clean`); see the header of `Properties/C08.lean` -/
@@ -117,7 +126,7 @@ theorem Frame.trans {a b c : RT} (h1 : Frame a b) (h2 : Frame b c) : Frame a c :
    h2.acts.trans h1.acts, h2.fired.trans h1.fired, h2.clean.trans h1.clean, Nat.le_trans h1.now h2.now, h2.err.trans h1.err⟩
 
 theorem Good.frame {a b : RT} (f : Frame a b) (g : Good a) : Good b := by
-  refine ⟨?_, ?_, ?_, ?_, ?_, ?_, ?_, ?_, ?_, ?_⟩
+  refine ⟨?_, ?_, ?_, ?_, ?_, ?_, ?_, ?_, ?_, ?_, ?_, ?_⟩
   · intro t ht; rw [f.timers] at ht; rw [f.cfg, f.acts]; exact g.cur t ht
   · intro i hi; rw [f.invs] at hi; rw [f.cfg, f.acts]; exact g.curI i hi
   · intro t ht; rw [f.timers] at ht; exact Nat.le_trans (g.armed t ht) f.now
@@ -128,6 +137,8 @@ theorem Good.frame {a b : RT} (f : Frame a b) (g : Good a) : Good b := by
   · rw [f.fired]; exact g.ndF
   · rw [f.invs]; exact g.ndI
   · intro t ht x hx; rw [f.timers] at ht; rw [f.fired] at hx; exact g.disj t ht x hx
+  · intro x hx; rw [f.fired] at hx; rw [f.acts]; exact g.actF x hx
+  · intro x y hx hy; rw [f.timers, f.fired] at hx hy; exact g.uniq x y hx hy
 
 theorem Inv.frame {a b : RT} (f : Frame a b) (g : Inv a) : Inv b := by
   intro hc; rw [f.clean] at hc; exact (g hc).frame f
@@ -155,7 +166,7 @@ theorem stFail_err (s : St) : (stFail s).err = s.err := by
   unfold stFail; split <;> rfl
 
 -- window-like steps ------------------------------------------------------------------------------------------
-def tcore (t : Timer) : Path × Nat × Nat × Nat := (t.owner, t.act, t.armed, t.seq)
+def tcore (t : Timer) : Path × Nat × Nat × Nat × Nat := (t.owner, t.act, t.armed, t.seq, t.slot)
 def icore (i : Invocation) : Path × Nat × Nat := (i.owner, i.act, i.seq)
 
 /-- what may happen while the interpreter's own task is suspended: the configuration, the error flag and
@@ -171,13 +182,15 @@ structure Shrink (a b : RT) : Prop where
   tsub : ∀ t ∈ b.timers, ∃ t' ∈ a.timers, tcore t' = tcore t
   isub : ∀ i ∈ b.invs, ∃ i' ∈ a.invs, icore i' = icore i
   good : Good a → Good b
+  /-- a delivered timer was delivered before, or was armed -/
+  fsub : ∀ f ∈ b.fired, f ∈ a.fired ∨ ∃ t' ∈ a.timers, tcore t' = tcore f
 
 theorem Shrink.refl (a : RT) : Shrink a a :=
-  ⟨rfl, rfl, rfl, rfl, Nat.le_refl _, Nat.le_refl _, fun t h => ⟨t, h, rfl⟩, fun i h => ⟨i, h, rfl⟩, id⟩
+  ⟨rfl, rfl, rfl, rfl, Nat.le_refl _, Nat.le_refl _, fun t h => ⟨t, h, rfl⟩, fun i h => ⟨i, h, rfl⟩, id, fun _ h => Or.inl h⟩
 
 theorem Shrink.trans {a b c : RT} (h1 : Shrink a b) (h2 : Shrink b c) : Shrink a c := by
   refine ⟨h2.cfg.trans h1.cfg, h2.err.trans h1.err, h2.acts.trans h1.acts, h2.clean.trans h1.clean,
-    Nat.le_trans h1.now h2.now, Nat.le_trans h1.nextId h2.nextId, ?_, ?_, fun g => h2.good (h1.good g)⟩
+    Nat.le_trans h1.now h2.now, Nat.le_trans h1.nextId h2.nextId, ?_, ?_, fun g => h2.good (h1.good g), ?_⟩
   · intro t ht
     obtain ⟨t1, h11, h12⟩ := h2.tsub t ht
     obtain ⟨t2, h21, h22⟩ := h1.tsub t1 h11
@@ -186,10 +199,15 @@ theorem Shrink.trans {a b c : RT} (h1 : Shrink a b) (h2 : Shrink b c) : Shrink a
     obtain ⟨i1, h11, h12⟩ := h2.isub i hi
     obtain ⟨i2, h21, h22⟩ := h1.isub i1 h11
     exact ⟨i2, h21, h22.trans h12⟩
+  · intro f hf
+    rcases h2.fsub f hf with h | ⟨t1, h11, h12⟩
+    · exact h1.fsub f h
+    · obtain ⟨t2, h21, h22⟩ := h1.tsub t1 h11
+      exact Or.inr ⟨t2, h21, h22.trans h12⟩
 
 theorem Frame.shrink {a b : RT} (f : Frame a b) : Shrink a b :=
   ⟨f.cfg, f.err, f.acts, f.clean, f.now, Nat.le_of_eq f.nextId.symm,
-   fun t h => ⟨t, f.timers ▸ h, rfl⟩, fun i h => ⟨i, f.invs ▸ h, rfl⟩, fun g => g.frame f⟩
+   fun t h => ⟨t, f.timers ▸ h, rfl⟩, fun i h => ⟨i, f.invs ▸ h, rfl⟩, fun g => g.frame f, fun _ h => Or.inl (f.fired ▸ h)⟩
 
 theorem Shrink.inv {a b : RT} (h : Shrink a b) (g : Inv a) : Inv b := by
   intro hc; rw [h.clean] at hc; exact h.good (g hc)
@@ -204,7 +222,7 @@ theorem nodup_map_filter {α β : Type} (f : α → β) (p : α → Bool) (l : L
 
 theorem good_filter (rt : RT) (pt : Timer → Bool) (pi : Invocation → Bool) (g : Good rt) :
     Good { rt with timers := rt.timers.filter pt, invs := rt.invs.filter pi } := by
-  refine ⟨?_, ?_, ?_, ?_, g.seqF, ?_, ?_, g.ndF, ?_, ?_⟩
+  refine ⟨?_, ?_, ?_, ?_, g.seqF, ?_, ?_, g.ndF, ?_, ?_, g.actF, ?_⟩
   · intro t ht; exact g.cur t (List.mem_filter.mp ht).1
   · intro i hi; exact g.curI i (List.mem_filter.mp hi).1
   · intro t ht; exact g.armed t (List.mem_filter.mp ht).1
@@ -213,11 +231,14 @@ theorem good_filter (rt : RT) (pt : Timer → Bool) (pi : Invocation → Bool) (
   · exact nodup_map_filter _ _ _ g.ndT
   · exact nodup_map_filter _ _ _ g.ndI
   · intro t ht; exact g.disj t (List.mem_filter.mp ht).1
+  · intro x y hx hy
+    exact g.uniq x y (hx.imp (fun h => (List.mem_filter.mp h).1) id) (hy.imp (fun h => (List.mem_filter.mp h).1) id)
 
 theorem shrink_filter (rt : RT) (pt : Timer → Bool) (pi : Invocation → Bool) :
     Shrink rt { rt with timers := rt.timers.filter pt, invs := rt.invs.filter pi } :=
   ⟨rfl, rfl, rfl, rfl, Nat.le_refl _, Nat.le_refl _,
-   fun t h => ⟨t, (List.mem_filter.mp h).1, rfl⟩, fun i h => ⟨i, (List.mem_filter.mp h).1, rfl⟩, good_filter rt pt pi⟩
+   fun t h => ⟨t, (List.mem_filter.mp h).1, rfl⟩, fun i h => ⟨i, (List.mem_filter.mp h).1, rfl⟩, good_filter rt pt pi,
+   fun _ h => Or.inl h⟩
 
 theorem filter_tt {α : Type} (l : List α) : l.filter (fun _ => true) = l := by
   induction l with
@@ -231,7 +252,7 @@ theorem filter_ff {α : Type} (l : List α) : l.filter (fun _ => false) = [] := 
 /-- a timer's expiry is delivered: it moves from the armed timers to the delivered ones -/
 theorem good_fire (rt : RT) (t : Timer) (ht : t ∈ rt.timers) (g : Good rt) :
     Good { rt with timers := rt.timers.filter (fun x => x.seq ≠ t.seq), fired := t :: rt.fired } := by
-  refine ⟨?_, g.curI, ?_, ?_, ?_, g.seqI, ?_, ?_, g.ndI, ?_⟩
+  refine ⟨?_, g.curI, ?_, ?_, ?_, g.seqI, ?_, ?_, g.ndI, ?_, ?_, ?_⟩
   · intro x hx; exact g.cur x (List.mem_filter.mp hx).1
   · intro x hx; exact g.armed x (List.mem_filter.mp hx).1
   · intro x hx; exact g.seqT x (List.mem_filter.mp hx).1
@@ -250,6 +271,19 @@ theorem good_fire (rt : RT) (t : Timer) (ht : t ∈ rt.timers) (g : Good rt) :
     rcases List.mem_cons.mp hf with h | h
     · rw [h]; simpa using hx'.2
     · exact g.disj x hx'.1 f h
+  · intro f hf
+    rcases List.mem_cons.mp hf with h | h
+    · rw [h]; exact Nat.le_of_eq (g.cur t ht).2
+    · exact g.actF f h
+  · intro x y hx hy
+    have conv : ∀ z : Timer, (z ∈ rt.timers.filter (fun x => x.seq ≠ t.seq) ∨ z ∈ t :: rt.fired) → (z ∈ rt.timers ∨ z ∈ rt.fired) := by
+      intro z hz
+      rcases hz with h | h
+      · exact Or.inl (List.mem_filter.mp h).1
+      · rcases List.mem_cons.mp h with e | e
+        · exact Or.inl (e ▸ ht)
+        · exact Or.inr e
+    exact g.uniq x y (conv x hx) (conv y hy)
 
 -- primitives of a window ----------------------------------------------------------------------------------------
 theorem shrink_deliver (e : Ev) (rt : RT) : Shrink rt (deliver e rt) := (frame_deliver e rt).shrink
@@ -267,12 +301,14 @@ theorem shrink_stop (rt : RT) : Shrink rt (stopRT rt) := by
     exact ⟨rfl, rfl, rfl, rfl, Nat.le_refl _, Nat.le_refl _, fun t h => by simp at h, fun i h => by simp at h,
       fun g => by
         have := good_clear rt g
-        exact ⟨this.cur, this.curI, this.armed, this.seqT, this.seqF, this.seqI, this.ndT, this.ndF, this.ndI, this.disj⟩⟩
+        exact ⟨this.cur, this.curI, this.armed, this.seqT, this.seqF, this.seqI, this.ndT, this.ndF, this.ndI, this.disj,
+          this.actF, this.uniq⟩, fun _ h => Or.inl h⟩
 
 theorem shrink_fire (rt : RT) (t : Timer) (ht : t ∈ rt.timers) :
     Shrink rt { rt with timers := rt.timers.filter (fun x => x.seq ≠ t.seq), fired := t :: rt.fired } :=
   ⟨rfl, rfl, rfl, rfl, Nat.le_refl _, Nat.le_refl _,
-   fun x h => ⟨x, (List.mem_filter.mp h).1, rfl⟩, fun i h => ⟨i, h, rfl⟩, good_fire rt t ht⟩
+   fun x h => ⟨x, (List.mem_filter.mp h).1, rfl⟩, fun i h => ⟨i, h, rfl⟩, good_fire rt t ht,
+   fun f h => (List.mem_cons.mp h).elim (fun e => Or.inr ⟨t, ht, by rw [e]⟩) Or.inl⟩
 
 theorem shrink_dropTimer (rt : RT) (t : Timer) :
     Shrink rt { rt with timers := rt.timers.filter (fun x => x.seq ≠ t.seq) } := by
@@ -308,7 +344,8 @@ theorem shrink_startOne (rt : RT) (i : Invocation) : Shrink rt (startOne rt i) :
   have h0 : Shrink rt (rlog ("svc-start:" ++ i.id) { rt with started := (i.owner, i.id, i.act) :: rt.started }) :=
     Shrink.trans (b := { rt with started := (i.owner, i.id, i.act) :: rt.started })
       ⟨rfl, rfl, rfl, rfl, Nat.le_refl _, Nat.le_refl _, fun t h => ⟨t, h, rfl⟩, fun i h => ⟨i, h, rfl⟩,
-        fun g => ⟨g.cur, g.curI, g.armed, g.seqT, g.seqF, g.seqI, g.ndT, g.ndF, g.ndI, g.disj⟩⟩ (frame_rlog _ _).shrink
+        fun g => ⟨g.cur, g.curI, g.armed, g.seqT, g.seqF, g.seqI, g.ndT, g.ndF, g.ndI, g.disj, g.actF, g.uniq⟩,
+        fun _ h => Or.inl h⟩ (frame_rlog _ _).shrink
   simp only
   split
   · refine h0.trans ?_
@@ -320,12 +357,13 @@ theorem shrink_startOne (rt : RT) (i : Invocation) : Shrink rt (startOne rt i) :
       intro j; simp only [f]; split <;> exact ⟨rfl, rfl, rfl⟩
     have hmem : ∀ j ∈ r.invs.map f, ∃ j' ∈ r.invs, f j' = j := fun j hj => by
       obtain ⟨j', h1, h2⟩ := List.mem_map.mp hj; exact ⟨j', h1, h2⟩
-    refine ⟨rfl, rfl, rfl, rfl, Nat.le_refl _, Nat.le_succ _, fun t h => ⟨t, h, rfl⟩, ?_, ?_⟩
+    refine ⟨rfl, rfl, rfl, rfl, Nat.le_refl _, Nat.le_succ _, fun t h => ⟨t, h, rfl⟩, ?_, ?_, fun _ h => Or.inl h⟩
     · intro j hj
       obtain ⟨j', h1, h2⟩ := hmem j hj
       exact ⟨j', h1, by rw [← h2, hf]⟩
     · intro g
-      refine ⟨g.cur, ?_, g.armed, fun t ht => Nat.lt_succ_of_lt (g.seqT t ht), fun t ht => Nat.lt_succ_of_lt (g.seqF t ht), ?_, g.ndT, g.ndF, ?_, g.disj⟩
+      refine ⟨g.cur, ?_, g.armed, fun t ht => Nat.lt_succ_of_lt (g.seqT t ht), fun t ht => Nat.lt_succ_of_lt (g.seqF t ht), ?_, g.ndT, g.ndF, ?_, g.disj,
+        g.actF, g.uniq⟩
       · intro j hj
         obtain ⟨j', h1, h2⟩ := hmem j hj
         have := g.curI j' h1
@@ -381,12 +419,13 @@ theorem shrink_startTimers (rt : RT) :
   have hcore := startTimersL_map tcore (fun _ _ => rfl) rt.timers rt.nextId
   have hseq := startTimersL_map (·.seq) (fun _ _ => rfl) rt.timers rt.nextId
   have hge := startTimersL_ge rt.timers rt.nextId
-  refine ⟨rfl, rfl, rfl, rfl, Nat.le_refl _, hge, ?_, fun i h => ⟨i, h, rfl⟩, ?_⟩
+  refine ⟨rfl, rfl, rfl, rfl, Nat.le_refl _, hge, ?_, fun i h => ⟨i, h, rfl⟩, ?_, fun _ h => Or.inl h⟩
   · intro t ht; exact mem_of_map_eq tcore _ _ hcore t ht
   · intro g
     have hm : ∀ t ∈ (startTimersL rt.timers rt.nextId).1, ∃ t' ∈ rt.timers, tcore t' = tcore t :=
       fun t ht => mem_of_map_eq tcore _ _ hcore t ht
-    refine ⟨?_, g.curI, ?_, ?_, fun t ht => Nat.lt_of_lt_of_le (g.seqF t ht) hge, fun i hi => Nat.lt_of_lt_of_le (g.seqI i hi) hge, ?_, g.ndF, g.ndI, ?_⟩
+    refine ⟨?_, g.curI, ?_, ?_, fun t ht => Nat.lt_of_lt_of_le (g.seqF t ht) hge, fun i hi => Nat.lt_of_lt_of_le (g.seqI i hi) hge, ?_, g.ndF, g.ndI, ?_,
+      g.actF, ?_⟩
     · intro t ht
       obtain ⟨t', h1, h2⟩ := hm t ht
       simp only [tcore, Prod.mk.injEq] at h2
@@ -398,13 +437,25 @@ theorem shrink_startTimers (rt : RT) :
     · intro t ht
       obtain ⟨t', h1, h2⟩ := hm t ht
       simp only [tcore, Prod.mk.injEq] at h2
-      rw [← h2.2.2.2]; exact Nat.lt_of_lt_of_le (g.seqT t' h1) hge
+      rw [← h2.2.2.2.1]; exact Nat.lt_of_lt_of_le (g.seqT t' h1) hge
     · show ((startTimersL rt.timers rt.nextId).1.map (·.seq)).Nodup
       rw [hseq]; exact g.ndT
     · intro t ht f hf
       obtain ⟨t', h1, h2⟩ := hm t ht
       simp only [tcore, Prod.mk.injEq] at h2
-      rw [← h2.2.2.2]; exact g.disj t' h1 f hf
+      rw [← h2.2.2.2.1]; exact g.disj t' h1 f hf
+    · intro x y hx hy hk
+      have conv : ∀ z : Timer, (z ∈ (startTimersL rt.timers rt.nextId).1 ∨ z ∈ rt.fired) →
+          ∃ z', (z' ∈ rt.timers ∨ z' ∈ rt.fired) ∧ tkey z' = tkey z ∧ z'.seq = z.seq := by
+        intro z hz
+        rcases hz with h | h
+        · obtain ⟨z', h1, h2⟩ := hm z h
+          simp only [tcore, Prod.mk.injEq] at h2
+          exact ⟨z', Or.inl h1, by simp only [tkey, Prod.mk.injEq]; exact ⟨h2.1, h2.2.1, h2.2.2.2.2⟩, h2.2.2.2.1⟩
+        · exact ⟨z, Or.inr h, rfl, rfl⟩
+      obtain ⟨x', hx1, hx2, hx3⟩ := conv x hx
+      obtain ⟨y', hy1, hy2, hy3⟩ := conv y hy
+      rw [← hx3, ← hy3]; exact g.uniq x' y' hx1 hy1 (by rw [hx2, hy2, hk])
 
 theorem shrink_startPending (rt : RT) : Shrink rt (startPending rt) := by
   unfold startPending
@@ -518,7 +569,7 @@ theorem shrink_windowLoop (fl : Flavor) (m : Machine) (uT uS : Nat) :
 theorem shrink_nextId (rt : RT) (n : Nat) (h : rt.nextId ≤ n) : Shrink rt { rt with nextId := n } :=
   ⟨rfl, rfl, rfl, rfl, Nat.le_refl _, h, fun t ht => ⟨t, ht, rfl⟩, fun i hi => ⟨i, hi, rfl⟩,
    fun g => ⟨g.cur, g.curI, g.armed, fun t ht => Nat.lt_of_lt_of_le (g.seqT t ht) h, fun t ht => Nat.lt_of_lt_of_le (g.seqF t ht) h,
-     fun i hi => Nat.lt_of_lt_of_le (g.seqI i hi) h, g.ndT, g.ndF, g.ndI, g.disj⟩⟩
+     fun i hi => Nat.lt_of_lt_of_le (g.seqI i hi) h, g.ndT, g.ndF, g.ndI, g.disj, g.actF, g.uniq⟩, fun _ h => Or.inl h⟩
 
 /-- the real interleaving handler is window-like -/
 theorem shrink_window (fl : Flavor) (m : Machine) (d : Nat) (rt : RT) : Shrink rt (window fl m d rt) := by
@@ -550,7 +601,7 @@ theorem keeps_foldl {α : Type} (f : RT → α → RT) (hf : ∀ rt a, Keeps rt 
 /-- replacing the engine state by one with the same configuration keeps `Good` -/
 theorem good_st (rt : RT) (s : St) (h : ∀ q, q ∈ rt.st.cfg → q ∈ s.cfg) (g : Good rt) : Good { rt with st := s } :=
   ⟨fun t ht => ⟨h _ (g.cur t ht).1, (g.cur t ht).2⟩, fun i hi => ⟨h _ (g.curI i hi).1, (g.curI i hi).2⟩,
-   g.armed, g.seqT, g.seqF, g.seqI, g.ndT, g.ndF, g.ndI, g.disj⟩
+   g.armed, g.seqT, g.seqF, g.seqI, g.ndT, g.ndF, g.ndI, g.disj, g.actF, g.uniq⟩
 
 theorem keeps_st (rt : RT) (s : St) (h : ∀ q, q ∈ rt.st.cfg → q ∈ s.cfg) : Keeps rt { rt with st := s } :=
   fun hc => ⟨hc, good_st rt s h⟩
@@ -620,7 +671,7 @@ theorem NoTasks.shrink {ps : List Path} {a b : RT} (h : Shrink a b) (n : NoTasks
 /-- the engine's exit of `p`, once the tasks of `p` are gone -/
 theorem good_exitOne (h : Hooks) (hok : HooksOK h) (fl : Flavor) (m : Machine) (ev : Option String) (p : Path) (rt : RT)
     (n : NoTasks [p] rt) (g : Good rt) : Good { rt with st := exitOne h fl m ev rt.st p } := by
-  refine ⟨?_, ?_, g.armed, g.seqT, g.seqF, g.seqI, g.ndT, g.ndF, g.ndI, g.disj⟩
+  refine ⟨?_, ?_, g.armed, g.seqT, g.seqF, g.seqI, g.ndT, g.ndF, g.ndI, g.disj, g.actF, g.uniq⟩
   · intro t ht
     refine ⟨exitOne_removes h hok fl m ev rt.st p _ (g.cur t ht).1 ?_, (g.cur t ht).2⟩
     have := n.1 t ht; simpa using this
@@ -726,6 +777,35 @@ theorem keeps_exitAll (c : RCx) (hw : WndOK c) (h : Hooks) (hok : HooksOK h) (ev
       exact h1.keeps.trans (hfold ps _ (fun q hq => hq) h2)
 
 -- schedule ---------------------------------------------------------------------------------------------------
+/-- nothing is armed or has been delivered yet for the CURRENT activation of `p`: no timer of `p` is armed,
+    and every delivered timer of `p` belongs to an earlier activation -/
+def Fresh (p : Path) (rt : RT) : Prop :=
+  (∀ t ∈ rt.timers, t.owner ≠ p) ∧ (∀ f ∈ rt.fired, f.owner = p → f.act < actOf rt.acts p)
+
+theorem Fresh.shrink {p : Path} {a b : RT} (h : Shrink a b) (n : Fresh p a) : Fresh p b := by
+  constructor
+  · intro t ht
+    obtain ⟨t', h1, h2⟩ := h.tsub t ht
+    simp only [tcore, Prod.mk.injEq] at h2
+    rw [← h2.1]; exact n.1 t' h1
+  · intro f hf hp
+    rcases h.fsub f hf with h1 | ⟨t', h1, h2⟩
+    · rw [h.acts]; exact n.2 f h1 hp
+    · simp only [tcore, Prod.mk.injEq] at h2
+      exact absurd (h2.1.trans hp) (n.1 t' h1)
+
+theorem mkTimers_slot (fl : Flavor) (p : Path) (a now base : Nat) :
+    ∀ (arms : List (String × Nat)) (i : Nat), ∀ t ∈ mkTimers fl p a now base arms i, t.seq = base + t.slot := by
+  intro arms
+  induction arms with
+  | nil => intro i t ht; simp [mkTimers] at ht
+  | cons x xs ih =>
+    intro i t ht
+    simp only [mkTimers, List.mem_cons] at ht
+    rcases ht with e | e
+    · subst e; rfl
+    · exact ih (i + 1) t e
+
 theorem mkTimers_spec (fl : Flavor) (p : Path) (a now base : Nat) :
     ∀ (arms : List (String × Nat)) (i : Nat),
       (∀ t ∈ mkTimers fl p a now base arms i, t.owner = p ∧ t.act = a ∧ t.armed = now ∧ base + i ≤ t.seq ∧ t.seq < base + i + arms.length)
@@ -753,10 +833,10 @@ theorem mkTimers_spec (fl : Flavor) (p : Path) (a now base : Nat) :
 
 theorem good_append_timers (rt : RT) (ts : List Timer) (n : Nat) (p : Path) (hp : p ∈ rt.st.cfg)
     (hts : ∀ t ∈ ts, t.owner = p ∧ t.act = actOf rt.acts p ∧ t.armed = rt.now ∧ rt.nextId ≤ t.seq ∧ t.seq < rt.nextId + n)
-    (hnd : (ts.map (·.seq)).Nodup) (g : Good rt) :
+    (hnd : (ts.map (·.seq)).Nodup) (hslot : ∀ x ∈ ts, ∀ y ∈ ts, x.slot = y.slot → x.seq = y.seq) (hf : Fresh p rt) (g : Good rt) :
     Good { rt with timers := rt.timers ++ ts, nextId := rt.nextId + n } := by
   refine ⟨?_, g.curI, ?_, ?_, fun t ht => Nat.lt_of_lt_of_le (g.seqF t ht) (Nat.le_add_right _ _),
-    fun i hi => Nat.lt_of_lt_of_le (g.seqI i hi) (Nat.le_add_right _ _), ?_, g.ndF, g.ndI, ?_⟩
+    fun i hi => Nat.lt_of_lt_of_le (g.seqI i hi) (Nat.le_add_right _ _), ?_, g.ndF, g.ndI, ?_, g.actF, ?_⟩
   · intro t ht
     rcases List.mem_append.mp ht with h | h
     · exact g.cur t h
@@ -785,8 +865,32 @@ theorem good_append_timers (rt : RT) (ts : List Timer) (n : Nat) (p : Path) (hp 
     · have h1 := g.seqF f hf
       have h2 := (hts t h).2.2.2.1
       omega
+  · -- no timer of `p`'s current activation exists yet (`Fresh`); the new ones have pairwise different slots
+    have old_new : ∀ o nw : Timer, (o ∈ rt.timers ∨ o ∈ rt.fired) → nw ∈ ts → tkey o = tkey nw → False := by
+      intro o nw ho hn hk
+      simp only [tkey, Prod.mk.injEq] at hk
+      obtain ⟨a1, a2, _⟩ := hts nw hn
+      rcases ho with h | h
+      · exact hf.1 o h (hk.1.trans a1)
+      · have := hf.2 o h (hk.1.trans a1)
+        rw [hk.2.1, a2] at this; exact Nat.lt_irrefl _ this
+    have cls : ∀ z : Timer, (z ∈ rt.timers ++ ts ∨ z ∈ rt.fired) → (z ∈ rt.timers ∨ z ∈ rt.fired) ∨ z ∈ ts := by
+      intro z hz
+      rcases hz with h | h
+      · rcases List.mem_append.mp h with h' | h'
+        · exact Or.inl (Or.inl h')
+        · exact Or.inr h'
+      · exact Or.inl (Or.inr h)
+    intro x y hx hy hk
+    rcases cls x hx with hx' | hx' <;> rcases cls y hy with hy' | hy'
+    · exact g.uniq x y hx' hy' hk
+    · exact (old_new x y hx' hy' hk).elim
+    · exact (old_new y x hy' hx' hk.symm).elim
+    · simp only [tkey, Prod.mk.injEq] at hk
+      exact hslot x hx' y hy' hk.2.2
 
-theorem keeps_armAll (fl : Flavor) (m : Machine) (p : Path) (arms : List (String × Nat)) (rt : RT) (hp : p ∈ rt.st.cfg) :
+theorem keeps_armAll (fl : Flavor) (m : Machine) (p : Path) (arms : List (String × Nat)) (rt : RT) (hp : p ∈ rt.st.cfg)
+    (hf : Fresh p rt) :
     Keeps rt (armAll fl m p (actOf rt.acts p) arms rt) ∧ (armAll fl m p (actOf rt.acts p) arms rt).st = rt.st
       ∧ (armAll fl m p (actOf rt.acts p) arms rt).acts = rt.acts := by
   unfold armAll
@@ -795,10 +899,12 @@ theorem keeps_armAll (fl : Flavor) (m : Machine) (p : Path) (arms : List (String
   · refine ⟨?_, rfl, rfl⟩
     refine Keeps.trans (b := { rt with timers := rt.timers ++ mkTimers fl p (actOf rt.acts p) rt.now rt.nextId arms 0, nextId := rt.nextId + arms.length }) ?_ (frame_rlog _ _).shrink.keeps
     intro hc
-    refine ⟨hc, good_append_timers rt _ arms.length p hp ?_ (mkTimers_spec fl p _ rt.now rt.nextId arms 0).2⟩
-    intro t ht
-    obtain ⟨a1, a2, a3, a4, a5⟩ := (mkTimers_spec fl p (actOf rt.acts p) rt.now rt.nextId arms 0).1 t ht
-    exact ⟨a1, a2, a3, by omega, by omega⟩
+    refine ⟨hc, good_append_timers rt _ arms.length p hp ?_ (mkTimers_spec fl p _ rt.now rt.nextId arms 0).2 ?_ hf⟩
+    · intro t ht
+      obtain ⟨a1, a2, a3, a4, a5⟩ := (mkTimers_spec fl p (actOf rt.acts p) rt.now rt.nextId arms 0).1 t ht
+      exact ⟨a1, a2, a3, by omega, by omega⟩
+    · intro x hx y hy hxy
+      rw [mkTimers_slot fl p _ rt.now rt.nextId arms 0 x hx, mkTimers_slot fl p _ rt.now rt.nextId arms 0 y hy, hxy]
 
 theorem keeps_schedInvsAsync (r : REnv) (p : Path) (a : Nat) :
     ∀ (is : List Invoke) (rt : RT), p ∈ rt.st.cfg → a = actOf rt.acts p → Keeps rt (schedInvsAsync r p a is rt) := by
@@ -814,7 +920,8 @@ theorem keeps_schedInvsAsync (r : REnv) (p : Path) (a : Nat) :
       refine Keeps.trans ?_ (ih _ hp ha)
       intro hc
       refine ⟨hc, fun g => ?_⟩
-      refine ⟨g.cur, ?_, g.armed, fun t ht => Nat.lt_succ_of_lt (g.seqT t ht), fun t ht => Nat.lt_succ_of_lt (g.seqF t ht), ?_, g.ndT, g.ndF, ?_, g.disj⟩
+      refine ⟨g.cur, ?_, g.armed, fun t ht => Nat.lt_succ_of_lt (g.seqT t ht), fun t ht => Nat.lt_succ_of_lt (g.seqF t ht), ?_, g.ndT, g.ndF, ?_, g.disj,
+        g.actF, g.uniq⟩
       · intro j hj
         rcases List.mem_append.mp hj with h | h
         · exact g.curI j h
@@ -847,7 +954,7 @@ theorem keeps_runSvcsSync (r : REnv) (h : Hooks) (hok : HooksOK h) (p : Path) (a
         refine Keeps.trans ?_ (ih _)
         have k1 : Keeps rt (rlog ("svc-start:" ++ i.id) { rt with started := (p, i.id, a) :: rt.started }) :=
           Keeps.trans (b := { rt with started := (p, i.id, a) :: rt.started })
-            (fun hc => ⟨hc, fun g => ⟨g.cur, g.curI, g.armed, g.seqT, g.seqF, g.seqI, g.ndT, g.ndF, g.ndI, g.disj⟩⟩)
+            (fun hc => ⟨hc, fun g => ⟨g.cur, g.curI, g.armed, g.seqT, g.seqF, g.seqI, g.ndT, g.ndF, g.ndI, g.disj, g.actF, g.uniq⟩⟩)
             (frame_rlog _ _).shrink.keeps
         have k2 := k1.trans (frame_rlog ("svc-end:" ++ i.id ++ (if sp.ok then ":ok" else ":raise")) _).shrink.keeps
         generalize (rlog ("svc-end:" ++ i.id ++ (if sp.ok then ":ok" else ":raise"))
@@ -858,16 +965,95 @@ theorem keeps_runSvcsSync (r : REnv) (h : Hooks) (hok : HooksOK h) (p : Path) (a
         · exact k3 _
         · exact (k3 _).trans (keeps_st_eq _ _ (stFail_cfg _))
 
-theorem keeps_schedule (c : RCx) (h : Hooks) (hok : HooksOK h) (p : Path) (d : StateDef) (rt : RT) (hp : p ∈ rt.st.cfg) :
-    Keeps rt (scheduleRT c h p d rt) := by
+theorem keeps_schedule (c : RCx) (h : Hooks) (hok : HooksOK h) (p : Path) (d : StateDef) (rt : RT) (hp : p ∈ rt.st.cfg)
+    (hf : Fresh p rt) : Keeps rt (scheduleRT c h p d rt) := by
   unfold scheduleRT
   cases c.fl with
   | async =>
-    obtain ⟨k1, hst, hacts⟩ := keeps_armAll .async c.m p (afterArms c.r d.after) rt hp
+    obtain ⟨k1, hst, hacts⟩ := keeps_armAll .async c.m p (afterArms c.r d.after) rt hp hf
     exact k1.trans (keeps_schedInvsAsync c.r p _ d.invoke _ (by rw [hst]; exact hp) (by rw [hacts]))
   | sync =>
-    obtain ⟨k1, hst, hacts⟩ := keeps_armAll .sync c.m p (afterArms c.r d.after) rt hp
+    obtain ⟨k1, hst, hacts⟩ := keeps_armAll .sync c.m p (afterArms c.r d.after) rt hp hf
     exact k1.trans (keeps_runSvcsSync c.r h hok p _ d.invoke _)
+
+theorem scheduleRT_timers (c : RCx) (h : Hooks) (p : Path) (d : StateDef) (rt : RT) :
+    (scheduleRT c h p d rt).timers =
+      rt.timers ++ mkTimers c.fl p (actOf rt.acts p) rt.now rt.nextId (afterArms c.r d.after) 0 := by
+  have harm : ∀ (r : RT), (armAll c.fl c.m p (actOf rt.acts p) (afterArms c.r d.after) r).timers =
+      r.timers ++ mkTimers c.fl p (actOf rt.acts p) r.now r.nextId (afterArms c.r d.after) 0 := by
+    intro r; unfold armAll
+    split
+    · rename_i he
+      have : afterArms c.r d.after = [] := by simpa using he
+      rw [this]; simp [mkTimers]
+    · rfl
+  have hA : ∀ (is : List Invoke) (a : Nat) (r : RT), (schedInvsAsync c.r p a is r).timers = r.timers := by
+    intro is a
+    induction is with
+    | nil => intro r; rfl
+    | cons i is ih =>
+      intro r; unfold schedInvsAsync
+      split
+      · rfl
+      · rw [ih]
+  have hS : ∀ (is : List Invoke) (a : Nat) (r : RT), (runSvcsSync c.r h p a is r).timers = r.timers := by
+    intro is a
+    induction is with
+    | nil => intro r; rfl
+    | cons i is ih =>
+      intro r; unfold runSvcsSync
+      split
+      · rfl
+      · split
+        · rfl
+        · rw [ih]; split <;> rfl
+  unfold scheduleRT
+  cases hfl : c.fl with
+  | async => simp only; rw [hA]; rw [hfl] at harm; exact harm rt
+  | sync => simp only; rw [hS]; rw [hfl] at harm; exact harm rt
+
+
+theorem scheduleRT_fired_acts (c : RCx) (h : Hooks) (p : Path) (d : StateDef) (rt : RT) :
+    (scheduleRT c h p d rt).fired = rt.fired ∧ (scheduleRT c h p d rt).acts = rt.acts := by
+  have harm : ∀ fl a arms (r : RT), (armAll fl c.m p a arms r).fired = r.fired ∧ (armAll fl c.m p a arms r).acts = r.acts := by
+    intro fl a arms r; unfold armAll; split <;> exact ⟨rfl, rfl⟩
+  have hA : ∀ (is : List Invoke) (a : Nat) (r : RT), (schedInvsAsync c.r p a is r).fired = r.fired ∧ (schedInvsAsync c.r p a is r).acts = r.acts := by
+    intro is a
+    induction is with
+    | nil => intro r; exact ⟨rfl, rfl⟩
+    | cons i is ih =>
+      intro r; unfold schedInvsAsync
+      split
+      · exact ⟨rfl, rfl⟩
+      · exact ih _
+  have hS : ∀ (is : List Invoke) (a : Nat) (r : RT), (runSvcsSync c.r h p a is r).fired = r.fired ∧ (runSvcsSync c.r h p a is r).acts = r.acts := by
+    intro is a
+    induction is with
+    | nil => intro r; exact ⟨rfl, rfl⟩
+    | cons i is ih =>
+      intro r; unfold runSvcsSync
+      split
+      · exact ⟨rfl, rfl⟩
+      · split
+        · exact ⟨rfl, rfl⟩
+        · rw [(ih _).1, (ih _).2]; split <;> exact ⟨rfl, rfl⟩
+  unfold scheduleRT
+  cases c.fl with
+  | async => simp only; rw [(hA _ _ _).1, (hA _ _ _).2]; exact harm _ _ _ _
+  | sync => simp only; rw [(hS _ _ _).1, (hS _ _ _).2]; exact harm _ _ _ _
+
+/-- scheduling the tasks of `p` leaves every OTHER state's current activation untouched -/
+theorem scheduleRT_fresh (c : RCx) (h : Hooks) (p q : Path) (d : StateDef) (rt : RT) (hne : q ≠ p) (n : Fresh q rt) :
+    Fresh q (scheduleRT c h p d rt) := by
+  obtain ⟨hfi, hac⟩ := scheduleRT_fired_acts c h p d rt
+  constructor
+  · intro t ht
+    rw [scheduleRT_timers] at ht
+    rcases List.mem_append.mp ht with h1 | h1
+    · exact n.1 t h1
+    · rw [((mkTimers_spec c.fl p (actOf rt.acts p) rt.now rt.nextId _ 0).1 t h1).1]; exact fun e => hne e.symm
+  · intro f hf hq
+    rw [hfi] at hf; rw [hac]; exact n.2 f hf hq
 
 -- entry ------------------------------------------------------------------------------------------------------
 theorem scheduleRT_cfg (c : RCx) (h : Hooks) (hok : HooksOK h) (p : Path) (d : StateDef) (rt : RT) :
@@ -953,13 +1139,124 @@ theorem keeps_enterStep (c : RCx) (hw : WndOK c) (h : Hooks) (hok : HooksOK h) (
         simp only [icore, Prod.mk.injEq] at h2
         intro he
         exact hnot (he ▸ h2.1 ▸ (g.curI i' h1).1)
-      refine ⟨?_, ?_, g1.armed, g1.seqT, g1.seqF, g1.seqI, g1.ndT, g1.ndF, g1.ndI, g1.disj⟩
+      refine ⟨?_, ?_, g1.armed, g1.seqT, g1.seqF, g1.seqI, g1.ndT, g1.ndF, g1.ndI, g1.disj, ?_, g1.uniq⟩
       · intro t ht
         exact ⟨mem_enterOne_of_mem h hok c.fl c.m ev _ e _ (g1.cur t ht).1,
           by rw [actOf_bump_other _ _ _ (hown t ht)]; exact (g1.cur t ht).2⟩
       · intro i hi
         exact ⟨mem_enterOne_of_mem h hok c.fl c.m ev _ e _ (g1.curI i hi).1,
           by rw [actOf_bump_other _ _ _ (hownI i hi)]; exact (g1.curI i hi).2⟩
+      · intro f hf
+        have := g1.actF f hf
+        by_cases hfe : f.owner = e.path
+        · show f.act ≤ actOf (bumpAct _ e.path) f.owner
+          rw [hfe, actOf_bump_self]; rw [hfe] at this; exact Nat.le_succ_of_le this
+        · show f.act ≤ actOf (bumpAct _ e.path) f.owner
+          rw [actOf_bump_other _ _ _ hfe]; exact this
+
+/-- the entry of a state that was not active begins a FRESH activation of it (nothing armed, nothing
+    delivered for it yet), and leaves the freshness of every other state's current activation alone -/
+theorem enterStep_fresh (c : RCx) (hw : WndOK c) (h : Hooks) (ev : Option String) (rt : RT) (e : Entry) (d : StateDef)
+    (hd : c.m.defAt e.path = some d) (he : rt.st.err.isSome = false) (g : Good rt) (hnot : e.path ∉ rt.st.cfg) :
+    Fresh e.path (enterStepRT c h ev rt (.enter e)) ∧ ∀ q, Fresh q rt → Fresh q (enterStepRT c h ev rt (.enter e)) := by
+  rw [enterStepRT_enter]
+  simp only [he, hd, Bool.false_eq_true, if_false]
+  have hs := shrink_slowWindow c hw d.entry { rt with st := addActive e.path rt.st }
+  have hown : ∀ t ∈ (slowWindow c d.entry { rt with st := addActive e.path rt.st }).timers, t.owner ≠ e.path := by
+    intro t ht
+    obtain ⟨t', h1, h2⟩ := hs.tsub t ht
+    simp only [tcore, Prod.mk.injEq] at h2
+    intro heq
+    exact hnot (heq ▸ h2.1 ▸ (g.cur t' h1).1)
+  constructor
+  · refine ⟨hown, ?_⟩
+    intro f hf hp
+    show f.act < actOf (bumpAct _ e.path) e.path
+    rw [actOf_bump_self, hs.acts]
+    rcases hs.fsub f hf with h1 | ⟨t', h1, h2⟩
+    · have := g.actF f h1
+      rw [hp] at this; exact Nat.lt_succ_of_le this
+    · simp only [tcore, Prod.mk.injEq] at h2
+      exact absurd ((h2.1.trans hp) ▸ (g.cur t' h1).1) hnot
+  · intro q n
+    have n0 : Fresh q { rt with st := addActive e.path rt.st } := ⟨n.1, n.2⟩
+    have n1 := n0.shrink hs
+    refine ⟨n1.1, ?_⟩
+    intro f hf hq
+    show f.act < actOf (bumpAct _ e.path) q
+    have := n1.2 f hf hq
+    by_cases hqe : q = e.path
+    · rw [hqe, actOf_bump_self]; rw [hqe] at this; exact Nat.lt_succ_of_lt this
+    · rw [actOf_bump_other _ _ _ hqe]; exact this
+
+/-- every `sched p` of a step list consumes one earlier `enter` of `p` (`P` = states entered and not yet
+    scheduled) -/
+def StepsP : List Path → List EStep → Prop
+  | _, [] => True
+  | P, .enter e :: r => StepsP (e.path :: P) r
+  | P, .sched p :: r => p ∈ P ∧ StepsP (P.erase p) r
+
+theorem stepsP_async : ∀ (es : List Entry) (P : List Path), StepsP P (es.flatMap (fun e => [EStep.enter e, EStep.sched e.path])) := by
+  intro es
+  induction es with
+  | nil => intro P; trivial
+  | cons e es ih =>
+    intro P
+    simp only [List.flatMap_cons, List.cons_append, List.nil_append]
+    refine ⟨List.mem_cons_self, ?_⟩
+    rw [List.erase_cons_head]; exact ih P
+
+/-- `closeOpen` pops a prefix of the stack and schedules exactly the popped states, in that order -/
+theorem closeOpen_pops (e : Entry) : ∀ (stack : List Path),
+    ∃ popped, stack = popped ++ (closeOpen e stack).2 ∧ (closeOpen e stack).1 = popped.map EStep.sched := by
+  intro stack
+  induction stack with
+  | nil => exact ⟨[], rfl, rfl⟩
+  | cons q stack ih =>
+    unfold closeOpen
+    split
+    · exact ⟨[], rfl, rfl⟩
+    · obtain ⟨popped, h1, h2⟩ := ih
+      refine ⟨q :: popped, ?_, ?_⟩
+      · show q :: stack = q :: (popped ++ _); rw [← h1]
+      · show EStep.sched q :: _ = _; rw [h2]; rfl
+
+theorem stepsP_pop : ∀ (popped rest : List Path) (L : List EStep), StepsP rest L → StepsP (popped ++ rest) (popped.map EStep.sched ++ L) := by
+  intro popped
+  induction popped with
+  | nil => intro rest L h; exact h
+  | cons q popped ih =>
+    intro rest L h
+    refine ⟨List.mem_cons_self, ?_⟩
+    show StepsP ((q :: (popped ++ rest)).erase q) _
+    rw [List.erase_cons_head]; exact ih rest L h
+
+theorem stepsP_sync : ∀ (es : List Entry) (stack : List Path), StepsP stack (syncSteps es stack) := by
+  intro es
+  induction es with
+  | nil =>
+    intro stack
+    unfold syncSteps
+    have := stepsP_pop stack [] [] trivial
+    simpa using this
+  | cons e es ih =>
+    intro stack
+    unfold syncSteps
+    obtain ⟨popped, h1, h2⟩ := closeOpen_pops e stack
+    rw [List.append_assoc, h2]
+    conv => lhs; rw [h1]
+    exact stepsP_pop popped _ _ (ih _)
+
+theorem stepsP_entrySteps (fl : Flavor) (es : List Entry) : StepsP [] (entrySteps fl es) := by
+  unfold entrySteps
+  cases fl with
+  | async => exact stepsP_async es []
+  | sync => exact stepsP_sync es []
+
+/-- what is known about the states entered and not yet scheduled (unless an error is flagged: every further
+    step is then a no-op): each is active, its current activation is fresh, and it is pending once -/
+def PInv (c : RCx) (P : List Path) (rt : RT) : Prop :=
+  rt.st.err.isSome = false → ∀ q ∈ P, (c.m.defAt q).isSome = true → q ∈ rt.st.cfg ∧ Fresh q rt ∧ P.count q = 1
 
 /-- every `sched p` of a step list comes after the `enter` of `p` (`S` = states entered so far) -/
 def StepsOK : List Path → List EStep → Prop
@@ -1047,64 +1344,6 @@ theorem stepsOK_entrySteps (fl : Flavor) (es : List Entry) : StepsOK [] (entrySt
   | async => exact stepsOK_async es []
   | sync => exact stepsOK_sync es [] [] (fun q hq => by simp at hq)
 
-theorem keeps_enterSteps (c : RCx) (hw : WndOK c) (h : Hooks) (hok : HooksOK h) (ev : Option String) :
-    ∀ (L : List EStep) (S : List Path) (rt : RT), StepsOK S L →
-      (rt.st.err.isSome = false → ∀ q ∈ S, (c.m.defAt q).isSome = true → q ∈ rt.st.cfg) →
-      Keeps rt (L.foldl (enterStepRT c h ev) rt) := by
-  intro L
-  induction L with
-  | nil => intro S rt _ _; exact Keeps.refl rt
-  | cons x L ih =>
-    intro S rt hok' hcov
-    simp only [List.foldl_cons]
-    cases x with
-    | enter e =>
-      refine (keeps_enterStep c hw h hok ev rt e).trans (ih (e.path :: S) _ hok' ?_)
-      -- coverage after the step
-      rw [enterStepRT_enter]
-      split
-      · rename_i he; intro he'; rw [he] at he'; cases he'
-      · rename_i he
-        have he : rt.st.err.isSome = false := by simpa using he
-        split
-        · rename_i hd
-          intro _ q hq hdef
-          rcases List.mem_cons.mp hq with e1 | e1
-          · rw [e1, hd] at hdef; cases hdef
-          · exact hcov he q e1 hdef
-        · rename_i d hd
-          intro _ q hq hdef
-          have hs := shrink_slowWindow c hw d.entry { rt with st := addActive e.path rt.st }
-          show q ∈ (enterOne h c.fl c.m ev _ e).cfg
-          rcases List.mem_cons.mp hq with e1 | e1
-          · rw [e1]
-            refine enterOne_adds h hok c.fl c.m ev _ e d hd ?_
-            rw [hs.err]; show (addActive e.path rt.st).err.isSome = false
-            rw [addActive_err]; exact he
-          · refine mem_enterOne_of_mem h hok c.fl c.m ev _ e q ?_
-            rw [hs.cfg]; exact mem_addActive.mpr (Or.inl (hcov he q e1 hdef))
-    | sched p =>
-      have hstep : Keeps rt (enterStepRT c h ev rt (.sched p)) ∧
-          ((enterStepRT c h ev rt (.sched p)).st.err.isSome = false → ∀ q ∈ S, (c.m.defAt q).isSome = true → q ∈ (enterStepRT c h ev rt (.sched p)).st.cfg) := by
-        rw [enterStepRT_sched]
-        split
-        · exact ⟨Keeps.refl rt, hcov⟩
-        · rename_i he
-          have he : rt.st.err.isSome = false := by simpa using he
-          split
-          · exact ⟨Keeps.refl rt, hcov⟩
-          · rename_i d hd
-            refine ⟨keeps_schedule c h hok p d rt (hcov he p hok'.1 (by rw [hd]; rfl)), ?_⟩
-            intro _ q hq hdef
-            rw [scheduleRT_cfg c h hok]; exact hcov he q hq hdef
-      exact hstep.1.trans (ih S _ hok'.2 hstep.2)
-
-theorem keeps_enterAll (c : RCx) (hw : WndOK c) (h : Hooks) (hok : HooksOK h) (ev : Option String) (es : List Entry) (rt : RT) :
-    Keeps rt (enterAllRT c h ev es rt) := by
-  unfold enterAllRT
-  exact keeps_enterSteps c hw h hok ev _ [] rt (stepsOK_entrySteps c.fl es) (fun _ q hq => by simp at hq)
-
--- a transition, an event, the loops -------------------------------------------------------------------------------
 theorem scheduleRT_clean (c : RCx) (h : Hooks) (p : Path) (d : StateDef) (rt : RT) : (scheduleRT c h p d rt).clean = rt.clean := by
   have harm : ∀ fl a arms (r : RT), (armAll fl c.m p a arms r).clean = r.clean := by
     intro fl a arms r; unfold armAll; split <;> rfl
@@ -1133,6 +1372,110 @@ theorem scheduleRT_clean (c : RCx) (h : Hooks) (p : Path) (d : StateDef) (rt : R
   | async => simp only; rw [hA, harm]
   | sync => simp only; rw [hS, harm]
 
+theorem pinv_erase (c : RCx) (P : List Path) (p : Path) (a b : RT) (hpi : PInv c P a) (herr : b.st.err.isSome = false → a.st.err.isSome = false)
+    (hstep : ∀ q, q ≠ p → q ∈ a.st.cfg → Fresh q a → q ∈ b.st.cfg ∧ Fresh q b) : PInv c (P.erase p) b := by
+  intro he q hq hdef
+  have hqP := List.mem_of_mem_erase hq
+  obtain ⟨h1, h2, h3⟩ := hpi (herr he) q hqP hdef
+  have hne : q ≠ p := by
+    intro e
+    have : 0 < (P.erase p).count q := List.count_pos_iff.mpr hq
+    rw [e, List.count_erase_self] at this
+    rw [e] at h3; omega
+  exact ⟨(hstep q hne h1 h2).1, (hstep q hne h1 h2).2, by rw [List.count_erase_of_ne hne]; exact h3⟩
+
+theorem keeps_enterSteps (c : RCx) (hw : WndOK c) (h : Hooks) (hok : HooksOK h) (ev : Option String) :
+    ∀ (L : List EStep) (P : List Path) (rt : RT), StepsP P L →
+      (L.foldl (enterStepRT c h ev) rt).clean = true →
+      rt.clean = true ∧ (Good rt → PInv c P rt → Good (L.foldl (enterStepRT c h ev) rt)) := by
+  intro L
+  induction L with
+  | nil => intro P rt _ hc; exact ⟨hc, fun g _ => g⟩
+  | cons x L ih =>
+    intro P rt hsp hc
+    simp only [List.foldl_cons] at hc ⊢
+    cases x with
+    | enter e =>
+      obtain ⟨hc1, ih1⟩ := ih (e.path :: P) _ hsp hc
+      have k := keeps_enterStep c hw h hok ev rt e hc1
+      refine ⟨k.1, fun g hpi => ih1 (k.2 g) ?_⟩
+      -- the pending invariant after the step
+      by_cases he : rt.st.err.isSome = true
+      · have : enterStepRT c h ev rt (.enter e) = rt := by rw [enterStepRT_enter]; simp [he]
+        rw [this]; intro he'; rw [he] at he'; cases he'
+      · have he : rt.st.err.isSome = false := by simpa using he
+        cases hd : c.m.defAt e.path with
+        | none =>
+          have : enterStepRT c h ev rt (.enter e) = rt := by rw [enterStepRT_enter]; simp [he, hd]
+          rw [this]
+          intro _ q hq hdef
+          have hne : e.path ≠ q := by intro e1; rw [← e1, hd] at hdef; cases hdef
+          rcases List.mem_cons.mp hq with e1 | e1
+          · exact absurd e1.symm hne
+          · obtain ⟨h1, h2, h3⟩ := hpi he q e1 hdef
+            exact ⟨h1, h2, by rw [List.count_cons_of_ne hne]; exact h3⟩
+        | some d =>
+          -- the step was clean: the state was not active, hence not pending either
+          have hnot : e.path ∉ rt.st.cfg := by
+            have hc1' := hc1
+            rw [enterStepRT_enter] at hc1'
+            simp only [he, hd, Bool.false_eq_true, if_false, Bool.and_eq_true, Bool.not_eq_true'] at hc1'
+            intro hm
+            have : rt.st.cfg.contains e.path = true := by simpa using hm
+            rw [this] at hc1'; exact absurd hc1'.2 (by simp)
+          have hnp : e.path ∉ P := fun hm => hnot (hpi he e.path hm (by rw [hd]; rfl)).1
+          obtain ⟨f1, f2⟩ := enterStep_fresh c hw h ev rt e d hd he g hnot
+          have hcfg : ∀ q, q ∈ rt.st.cfg → q ∈ (enterStepRT c h ev rt (.enter e)).st.cfg := by
+            intro q hq
+            rw [enterStepRT_enter]
+            simp only [he, hd, Bool.false_eq_true, if_false]
+            have hs := shrink_slowWindow c hw d.entry { rt with st := addActive e.path rt.st }
+            refine mem_enterOne_of_mem h hok c.fl c.m ev _ e q ?_
+            rw [hs.cfg]; exact mem_addActive.mpr (Or.inl hq)
+          have hself : e.path ∈ (enterStepRT c h ev rt (.enter e)).st.cfg := by
+            rw [enterStepRT_enter]
+            simp only [he, hd, Bool.false_eq_true, if_false]
+            have hs := shrink_slowWindow c hw d.entry { rt with st := addActive e.path rt.st }
+            refine enterOne_adds h hok c.fl c.m ev _ e d hd ?_
+            rw [hs.err]; show (addActive e.path rt.st).err.isSome = false
+            rw [addActive_err]; exact he
+          intro _ q hq hdef
+          rcases List.mem_cons.mp hq with e1 | e1
+          · rw [e1]
+            exact ⟨hself, f1, by rw [List.count_cons_self, List.count_eq_zero_of_not_mem hnp]⟩
+          · obtain ⟨h1, h2, h3⟩ := hpi he q e1 hdef
+            have hne : e.path ≠ q := fun e2 => hnp (e2 ▸ e1)
+            exact ⟨hcfg q h1, f2 q h2, by rw [List.count_cons_of_ne hne]; exact h3⟩
+    | sched p =>
+      obtain ⟨hc1, ih1⟩ := ih (P.erase p) _ hsp.2 hc
+      by_cases he : rt.st.err.isSome = true
+      · have : enterStepRT c h ev rt (.sched p) = rt := by rw [enterStepRT_sched]; simp [he]
+        rw [this] at hc1 ih1 ⊢
+        exact ⟨hc1, fun g hpi => ih1 g (pinv_erase c P p rt rt hpi id (fun q _ h1 h2 => ⟨h1, h2⟩))⟩
+      · have he : rt.st.err.isSome = false := by simpa using he
+        cases hd : c.m.defAt p with
+        | none =>
+          have : enterStepRT c h ev rt (.sched p) = rt := by rw [enterStepRT_sched]; simp [he, hd]
+          rw [this] at hc1 ih1 ⊢
+          exact ⟨hc1, fun g hpi => ih1 g (pinv_erase c P p rt rt hpi id (fun q _ h1 h2 => ⟨h1, h2⟩))⟩
+        | some d =>
+          have : enterStepRT c h ev rt (.sched p) = scheduleRT c h p d rt := by rw [enterStepRT_sched]; simp [he, hd]
+          rw [this] at hc1 ih1 ⊢
+          have hcl : rt.clean = true := by rw [scheduleRT_clean] at hc1; exact hc1
+          refine ⟨hcl, fun g hpi => ?_⟩
+          obtain ⟨h1, h2, _⟩ := hpi he p hsp.1 (by rw [hd]; rfl)
+          refine ih1 ((keeps_schedule c h hok p d rt h1 h2 hc1).2 g) ?_
+          exact pinv_erase c P p rt _ hpi (fun _ => he)
+            (fun q hne hq hf => ⟨by rw [scheduleRT_cfg c h hok]; exact hq, scheduleRT_fresh c h p q d rt hne hf⟩)
+
+theorem keeps_enterAll (c : RCx) (hw : WndOK c) (h : Hooks) (hok : HooksOK h) (ev : Option String) (es : List Entry) (rt : RT) :
+    Keeps rt (enterAllRT c h ev es rt) := by
+  unfold enterAllRT
+  intro hc
+  obtain ⟨h1, h2⟩ := keeps_enterSteps c hw h hok ev _ [] rt (stepsP_entrySteps c.fl es) hc
+  exact ⟨h1, fun g => h2 g (fun _ q hq => by simp at hq)⟩
+
+-- a transition, an event, the loops -------------------------------------------------------------------------------
 theorem rearmRT_clean (c : RCx) (h : Hooks) (pre exits : List Path) (rt : RT) : (rearmRT c h pre exits rt).clean = rt.clean := by
   unfold rearmRT
   generalize pre.filter (fun p => exits.contains p) = l
@@ -1220,19 +1563,27 @@ theorem keeps_transientLoop (c : RCx) (hw : WndOK c) (h : Hooks) (hok : HooksOK 
         · exact (keeps_processEvent c hw h hok _ rt).trans (ih _)
         · exact Keeps.refl rt
 
-theorem keeps_asyncStep (c : RCx) (hw : WndOK c) (e : Ev) (rt : RT) : Keeps rt (asyncStepRT c e rt) := by
-  unfold asyncStepRT
+theorem asyncChainEnd_cfg' (b : Nat) (s : St) : (asyncChainEnd b s).cfg = s.cfg := by
+  unfold asyncChainEnd; split <;> rfl
+
+theorem keeps_asyncProcess (c : RCx) (hw : WndOK c) (e : Ev) (rt : RT) : Keeps rt (asyncProcessRT c e rt) := by
+  unfold asyncProcessRT
   have hok := hooksAsync_ok c.u c.m
+  have k1 : Keeps rt { rt with st := emit ("#recv:" ++ e.type) rt.st } := keeps_st_eq rt _ rfl
+  have k2 := (k1.trans (keeps_processEvent c hw _ hok e _)).trans (keeps_transientLoop c hw _ hok c.m.maxIterations _)
+  simp only
+  refine k2.trans (keeps_st_eq _ _ ?_)
+  rw [asyncChainEnd_cfg']
+  split <;> rfl
+
+theorem keeps_asyncStep (c : RCx) (hw : WndOK c) (q : QEv) (rt : RT) : Keeps rt (asyncStepRT c q rt) := by
+  unfold asyncStepRT
+  have kp : Keeps rt { rt with st := asyncPurge rt.st } := keeps_st_eq rt _ rfl
   split
-  · exact keeps_st_eq rt _ rfl
-  · have k1 : Keeps rt { rt with st := emit ("#recv:" ++ e.type) rt.st } := keeps_st_eq rt _ rfl
-    have k2 := (k1.trans (keeps_processEvent c hw _ hok e _)).trans (keeps_transientLoop c hw _ hok c.m.maxIterations _)
-    simp only
-    split
-    · exact k2.trans (keeps_st_eq _ _ rfl)
-    · split
-      · exact k2.trans (keeps_st_eq _ _ rfl)
-      · exact k2
+  · split
+    · exact kp
+    · exact kp.trans (keeps_asyncProcess c hw q.ev _)
+  · exact keeps_asyncProcess c hw q.ev rt
 
 theorem keeps_asyncDrain (c : RCx) (hw : WndOK c) : ∀ (fuel : Nat) (rt : RT), Keeps rt (asyncDrainRT c fuel rt) := by
   intro fuel
@@ -1250,7 +1601,7 @@ theorem keeps_asyncDrain (c : RCx) (hw : WndOK c) : ∀ (fuel : Nat) (rt : RT), 
       · exact Keeps.refl rt
       · rename_i q rest _
         exact (Keeps.trans (b := { rt with st := { rt.st with queue := rest } }) (keeps_st_eq rt _ rfl)
-          (keeps_asyncStep c hw q.ev _)).trans (ih _)
+          (keeps_asyncStep c hw q _)).trans (ih _)
 
 theorem keeps_drainLoop (c : RCx) (hw : WndOK c) : ∀ (budget : Nat) (rt : RT), Keeps rt (drainLoopRT c budget rt) := by
   intro budget
@@ -1283,7 +1634,11 @@ theorem keeps_syncSend (c : RCx) (hw : WndOK c) (e : Ev) (rt : RT) : Keeps rt (s
   · exact Keeps.refl rt
 
 theorem keeps_lt (rt : RT) (b : Bool) : Keeps rt { rt with lt := b } :=
-  fun hc => ⟨hc, fun g => ⟨g.cur, g.curI, g.armed, g.seqT, g.seqF, g.seqI, g.ndT, g.ndF, g.ndI, g.disj⟩⟩
+  fun hc => ⟨hc, fun g => ⟨g.cur, g.curI, g.armed, g.seqT, g.seqF, g.seqI, g.ndT, g.ndF, g.ndI, g.disj, g.actF, g.uniq⟩⟩
+
+theorem keeps_loopRuns (c : RCx) (hw : WndOK c) (rt : RT) : Keeps rt (loopRuns c rt) := by
+  unfold loopRuns
+  exact (keeps_asyncDrain c hw _ _).trans (keeps_lt _ _)
 
 theorem keeps_settle (c : RCx) (hw : WndOK c) : ∀ (fuel : Nat) (rt : RT), Keeps rt (settle c fuel rt) := by
   intro fuel
@@ -1300,11 +1655,11 @@ theorem keeps_settle (c : RCx) (hw : WndOK c) : ∀ (fuel : Nat) (rt : RT), Keep
       split
       · exact k1
       · split
-        · exact ((k1.trans (keeps_asyncDrain c hw _ _)).trans (keeps_lt _ _)).trans (ih _)
+        · exact (k1.trans (keeps_loopRuns c hw _)).trans (ih _)
         · split
           · rename_i q rest _
-            exact ((k1.trans (Keeps.trans (b := { (startPending rt) with st := { (startPending rt).st with queue := rest } })
-              (keeps_st_eq _ _ rfl) (keeps_asyncStep c hw q.ev _))).trans (keeps_lt _ _)).trans (ih _)
+            exact (k1.trans (Keeps.trans (b := { (startPending rt) with st := { (startPending rt).st with queue := rest } })
+              (keeps_st_eq _ _ rfl) (keeps_lt _ _)))
           · exact k1
 
 -- the top level ---------------------------------------------------------------------------------------------------
@@ -1334,7 +1689,12 @@ theorem keeps_startFinish (c : RCx) (hw : WndOK c) (rt : RT) : Keeps rt (startFi
   unfold startFinish
   cases c.fl with
   | sync => exact keeps_drainLoop c hw _ _
-  | async => exact keeps_settle c hw _ _
+  | async =>
+    refine Keeps.trans ?_ (keeps_settle c hw _ _)
+    unfold loopCreated
+    split
+    · exact (shrink_startTimers rt).keeps.trans (keeps_loopRuns c hw _)
+    · exact Keeps.refl rt
 
 theorem keeps_start (c : RCx) (hw : WndOK c) (rt : RT) : Keeps rt (startRT c rt) := by
   unfold startRT
@@ -1404,7 +1764,29 @@ theorem keeps_advanceTo (c : RCx) (hw : WndOK c) (T : Nat) : ∀ (fuel : Nat) (r
 
 theorem good_init (agenda : List (Nat × ExtOp)) : Good ({ agenda := agenda } : RT) :=
   ⟨fun _ h => by simp at h, fun _ h => by simp at h, fun _ h => by simp at h, fun _ h => by simp at h, fun _ h => by simp at h,
-   fun _ h => by simp at h, by simp, by simp, by simp, fun _ h => by simp at h⟩
+   fun _ h => by simp at h, by simp, by simp, by simp, fun _ h => by simp at h, fun _ h => by simp at h,
+   fun _ _ hx _ _ => by simp at hx⟩
+
+theorem nodup_map_of_inj_on {α β γ : Type} (f : α → β) (k : α → γ) :
+    ∀ (l : List α), (l.map f).Nodup → (∀ x ∈ l, ∀ y ∈ l, k x = k y → f x = f y) → (l.map k).Nodup := by
+  intro l
+  induction l with
+  | nil => intro _ _; simp
+  | cons a l ih =>
+    intro hnd h
+    simp only [List.map_cons, List.nodup_cons] at hnd ⊢
+    refine ⟨?_, ih hnd.2 (fun x hx y hy => h x (List.mem_cons_of_mem _ hx) y (List.mem_cons_of_mem _ hy))⟩
+    intro hm
+    obtain ⟨y, hy, he⟩ := List.mem_map.mp hm
+    exact hnd.1 (List.mem_map.mpr ⟨y, hy, h y (List.mem_cons_of_mem _ hy) a List.mem_cons_self he⟩)
+
+/-- per (owner, activation, delay key): at most one timer is armed, at most one has been delivered, and
+    none is both -/
+theorem Good.keys {rt : RT} (g : Good rt) :
+    (rt.fired.map tkey).Nodup ∧ (rt.timers.map tkey).Nodup ∧ ∀ t ∈ rt.timers, ∀ f ∈ rt.fired, tkey t ≠ tkey f :=
+  ⟨nodup_map_of_inj_on (·.seq) tkey rt.fired g.ndF (fun x hx y hy => g.uniq x y (Or.inr hx) (Or.inr hy)),
+   nodup_map_of_inj_on (·.seq) tkey rt.timers g.ndT (fun x hx y hy => g.uniq x y (Or.inl hx) (Or.inl hy)),
+   fun t ht f hf hk => g.disj t ht f hf (g.uniq t f (Or.inl ht) (Or.inr hf) hk)⟩
 
 /-- the invariant holds after every run: any machine, any user code, any timing data, any agenda -/
 theorem inv_runRT (fl : Flavor) (m : Machine) (u : UEnv) (r : REnv) (agenda : List (Nat × ExtOp)) (horizon fuel : Nat) :
@@ -1429,7 +1811,7 @@ theorem mkTimers_data (fl : Flavor) (p : Path) (a now base : Nat) :
     · simp only [mkTimers, List.map_cons, h2, List.length_cons, List.range'_succ]
 
 theorem mem_afterArms (r : REnv) (after : List (String × List Trans)) (x : String × Nat) :
-    x ∈ afterArms r after ↔ ∃ kv ∈ after, ∃ d, resolveDelay r kv.1 = some d ∧ ∃ t ∈ kv.2, x = (t.event, d) := by
+    x ∈ afterArms r after ↔ ∃ kv ∈ after, ∃ d, resolveDelay r kv.1 = some d ∧ ∃ t, kv.2.head? = some t ∧ x = (t.event, d) := by
   unfold afterArms
   simp only [List.mem_flatMap]
   constructor
@@ -1438,49 +1820,32 @@ theorem mem_afterArms (r : REnv) (after : List (String × List Trans)) (x : Stri
     cases hr : resolveDelay r kv.1 with
     | none => simp [hr] at hx
     | some d =>
-      simp only [hr, List.mem_map] at hx
+      simp only [hr, List.mem_map, List.take_one, Option.mem_toList] at hx
       obtain ⟨t, ht, he⟩ := hx
       exact ⟨d, rfl, t, ht, he.symm⟩
   · rintro ⟨kv, hkv, d, hr, t, ht, he⟩
     refine ⟨kv, hkv, ?_⟩
-    simp only [hr, List.mem_map]
+    simp only [hr, List.mem_map, List.take_one, Option.mem_toList]
     exact ⟨t, ht, he.symm⟩
 
-theorem scheduleRT_timers (c : RCx) (h : Hooks) (p : Path) (d : StateDef) (rt : RT) :
-    (scheduleRT c h p d rt).timers =
-      rt.timers ++ mkTimers c.fl p (actOf rt.acts p) rt.now rt.nextId (afterArms c.r d.after) 0 := by
-  have harm : ∀ (r : RT), (armAll c.fl c.m p (actOf rt.acts p) (afterArms c.r d.after) r).timers =
-      r.timers ++ mkTimers c.fl p (actOf rt.acts p) r.now r.nextId (afterArms c.r d.after) 0 := by
-    intro r; unfold armAll
-    split
-    · rename_i he
-      have : afterArms c.r d.after = [] := by simpa using he
-      rw [this]; simp [mkTimers]
-    · rfl
-  have hA : ∀ (is : List Invoke) (a : Nat) (r : RT), (schedInvsAsync c.r p a is r).timers = r.timers := by
-    intro is a
-    induction is with
-    | nil => intro r; rfl
-    | cons i is ih =>
-      intro r; unfold schedInvsAsync
-      split
-      · rfl
-      · rw [ih]
-  have hS : ∀ (is : List Invoke) (a : Nat) (r : RT), (runSvcsSync c.r h p a is r).timers = r.timers := by
-    intro is a
-    induction is with
-    | nil => intro r; rfl
-    | cons i is ih =>
-      intro r; unfold runSvcsSync
-      split
-      · rfl
-      · split
-        · rfl
-        · rw [ih]; split <;> rfl
-  unfold scheduleRT
-  cases hfl : c.fl with
-  | async => simp only; rw [hA]; rw [hfl] at harm; exact harm rt
-  | sync => simp only; rw [hS]; rw [hfl] at harm; exact harm rt
+/-- ONE timer per delay key: the armed (event type, delay) pairs are, key by key, the key's `armOfKey` -/
+theorem afterArms_eq_filterMap (r : REnv) (after : List (String × List Trans)) :
+    afterArms r after = after.filterMap (armOfKey r) := by
+  unfold afterArms
+  induction after with
+  | nil => rfl
+  | cons kv rest ih =>
+    simp only [List.flatMap_cons, List.filterMap_cons, ih]
+    unfold armOfKey
+    cases hr : resolveDelay r kv.1 with
+    | none => simp
+    | some d =>
+      cases hk : kv.2 with
+      | nil => simp
+      | cons t ts => simp
+
+theorem afterArms_length_le (r : REnv) (after : List (String × List Trans)) : (afterArms r after).length ≤ after.length := by
+  rw [afterArms_eq_filterMap]; exact List.length_filterMap_le _ _
 
 /-- async: after the exit step of `p` no timer and no service task of `p` is left -/
 theorem exitStep_async_none (c : RCx) (hw : WndOK c) (hfl : c.fl = .async) (h : Hooks) (ev : Option String) (rt : RT) (p : Path)
@@ -1835,20 +2200,24 @@ theorem transientLoop_st (c : RCx) (hq : Quiet c) (hn : NoInvoke c.m) (h : Hooks
         · rw [ih, processEvent_st c hq hn]
         · rfl
 
-theorem asyncStep_st (c : RCx) (hfl : c.fl = .async) (hq : Quiet c) (hn : NoInvoke c.m) (e : Ev) (rt : RT) :
-    (asyncStepRT c e rt).st = asyncStep c.m c.u e rt.st := by
+theorem asyncProcess_st (c : RCx) (hfl : c.fl = .async) (hq : Quiet c) (hn : NoInvoke c.m) (e : Ev) (rt : RT) :
+    (asyncProcessRT c e rt).st = asyncProcess c.m c.u e rt.st := by
+  unfold asyncProcessRT asyncProcess
+  have h1 := processEvent_st c hq hn (hooksAsync c.u c.m) e { rt with st := emit ("#recv:" ++ e.type) rt.st }
+  have h2 := transientLoop_st c hq hn (hooksAsync c.u c.m) c.m.maxIterations
+    (processEventRT c (hooksAsync c.u c.m) e { rt with st := emit ("#recv:" ++ e.type) rt.st })
+  rw [h1, hfl] at h2
+  simp only at h2 ⊢
+  rw [← h2]
+
+theorem asyncStep_st (c : RCx) (hfl : c.fl = .async) (hq : Quiet c) (hn : NoInvoke c.m) (q : QEv) (rt : RT) :
+    (asyncStepRT c q rt).st = asyncStep c.m c.u q rt.st := by
   unfold asyncStepRT asyncStep
   split
-  · rfl
-  · have h1 := processEvent_st c hq hn (hooksAsync c.u c.m) e { rt with st := emit ("#recv:" ++ e.type) rt.st }
-    have h2 := transientLoop_st c hq hn (hooksAsync c.u c.m) c.m.maxIterations
-      (processEventRT c (hooksAsync c.u c.m) e { rt with st := emit ("#recv:" ++ e.type) rt.st })
-    rw [h1, hfl] at h2
-    simp only at h2 ⊢
-    rw [← h2]
-    split
+  · split
     · rfl
-    · split <;> rfl
+    · exact asyncProcess_st c hfl hq hn q.ev { rt with st := asyncPurge rt.st }
+  · exact asyncProcess_st c hfl hq hn q.ev rt
 
 theorem asyncDrain_st (c : RCx) (hfl : c.fl = .async) (hq : Quiet c) (hn : NoInvoke c.m) :
     ∀ (fuel : Nat) (rt : RT), (asyncDrainRT c fuel rt).st = asyncDrain c.m c.u fuel rt.st := by
